@@ -250,6 +250,18 @@ func runHistory(rec *mon.Recorder, c int, long bool) {
 			search()
 		}
 	}
+	// the history is over: searches by several goroutines at once, with nobody writing, are judged like any other
+	if c%8 == 5 && !violated && len(ref) > 0 {
+		var qs []amath.Vector
+		for i := 0; i < 4; i++ {
+			qs = append(qs, cfg.Vec(rng))
+		}
+		if sym, detail, done := hx.ConcurrentSearches(idx, sp, ref, qs, uint(len(ref)+2), 6, 16, false); sym != "" {
+			fail(sym+":concurrent-searches", detail)
+		} else {
+			rec.Count("concurrent_searches_checked", int64(done))
+		}
+	}
 	rec.Count("searches_checked", int64(searches))
 	rec.Count("removals", int64(removals))
 	rec.Case(mon.Digest(cfg.String(), ops), removals >= 1 && nonEmptyResults >= 1)
